@@ -75,7 +75,7 @@ def idb(name, entry, title, **kw):
                                    "sm2_signature_print", "sm2_signature_to_der", "sm2_signature_from_der"]},
          "models": ["models/sm3_rec.c", "models/c01_keystubs.c"],
          "stubs": ["M2 SM3 stream recorder", "sm2_z256_point_to_bytes -> arbitrary 64 bytes", "sm2_key_set_public_key, point_mul_pre_compute: no body (results unused)"],
-         "title": title, "timeout": 600, "unwind": 130}
+         "title": title, "timeout": 600, "unwind": 330}
     d.update(kw)
     return d
 OBLIGATIONS += [
